@@ -235,11 +235,12 @@ def data_resolution_and_offset(
             raise ValueError("Can't calculate resolution with data size < 2")
         res = fallback_resolution
     else:
-        _res = (data[data.size - 1] - data[0]) / (data.size - 1.0)
-        res = _res.item()
+        # integer labels: the difference of unsigned (or narrow) integers wraps around
+        _res = (float(data[data.size - 1]) - float(data[0])) / (data.size - 1.0)
+        res = _res
 
-    off = data[0] - 0.5 * res
-    return res, off.item()
+    off = float(data[0]) - 0.5 * res
+    return res, off
 
 
 def affine_from_axis(
